@@ -4,33 +4,41 @@ Each patch is applied to a scratch copy of /repo's working tree under /tmp (neve
 import json, os, shutil, subprocess, sys, tempfile, glob
 ROOT = os.path.dirname(os.path.dirname(os.path.abspath(__file__)))
 only = sys.argv[1:]
-rows = []
-for d in sorted(glob.glob(os.path.join(ROOT, "seeded", "*"))):
+
+
+def work(d):
+    rows = []
     sid = os.path.basename(d)
-    if only and not any(sid.startswith(o) for o in only):
-        continue
-    meta = json.load(open(os.path.join(d, "meta.json")))
-    tmp = tempfile.mkdtemp(prefix="seedchk_")
-    try:
-        shutil.copytree("/repo/ariadne_codegen", os.path.join(tmp, "ariadne_codegen"))
-        p = subprocess.run(["patch", "-p1", "-s", "-i", os.path.join(d, "patch.diff")], cwd=tmp, capture_output=True, text=True)
-        if p.returncode != 0:
-            rows.append((sid, meta["property"], "PATCH-FAILED", p.stdout[-200:] + p.stderr[-200:]))
-            continue
-        props = [meta["property"]] + [x for x in meta.get("also_breaks", [])]
-        hit = []
-        detail = ""
-        for prop in props:
-            r = subprocess.run(["/venv/bin/python", os.path.join(ROOT, "check.py"), "--repo", tmp, "-p", prop, "--no-evidence"], capture_output=True, text=True)
-            if r.returncode == 1:
-                hit.append(prop)
-                v = [l.strip() for l in r.stdout.splitlines() if l.strip().startswith("violation:")]
-                detail += " | ".join(v[:2])
-            elif r.returncode == 2:
-                detail += f" [{prop}: ANALYSIS-ERROR " + " ".join(l for l in r.stdout.splitlines() if "ANALYSIS-ERROR" in l)[:160] + "]"
-        rows.append((sid, meta["property"], "DETECTED" if hit else "MISSED", detail[:260]))
-    finally:
-        shutil.rmtree(tmp, ignore_errors=True)
+    for _ in (0,):
+        meta = json.load(open(os.path.join(d, "meta.json")))
+        tmp = tempfile.mkdtemp(prefix="seedchk_")
+        try:
+            shutil.copytree("/repo/ariadne_codegen", os.path.join(tmp, "ariadne_codegen"))
+            p = subprocess.run(["patch", "-p1", "-s", "-i", os.path.join(d, "patch.diff")], cwd=tmp, capture_output=True, text=True)
+            if p.returncode != 0:
+                rows.append((sid, meta["property"], "PATCH-FAILED", p.stdout[-200:] + p.stderr[-200:]))
+                continue
+            props = [meta["property"]] + [x for x in meta.get("also_breaks", [])]
+            hit = []
+            detail = ""
+            for prop in props:
+                r = subprocess.run(["/venv/bin/python", os.path.join(ROOT, "check.py"), "--repo", tmp, "-p", prop, "--no-evidence"], capture_output=True, text=True)
+                if r.returncode == 1:
+                    hit.append(prop)
+                    v = [l.strip() for l in r.stdout.splitlines() if l.strip().startswith("violation:")]
+                    detail += " | ".join(v[:2])
+                elif r.returncode == 2:
+                    detail += f" [{prop}: ANALYSIS-ERROR " + " ".join(l for l in r.stdout.splitlines() if "ANALYSIS-ERROR" in l)[:160] + "]"
+            rows.append((sid, meta["property"], "DETECTED" if hit else "MISSED", detail[:260]))
+        finally:
+            shutil.rmtree(tmp, ignore_errors=True)
+    return rows
+
+
+from multiprocessing import Pool
+dirs = [d for d in sorted(glob.glob(os.path.join(ROOT, "seeded", "*"))) if not only or any(os.path.basename(d).startswith(o) for o in only)]
+with Pool(int(os.environ.get("VERIF_JOBS", "8"))) as pool:
+    rows = [r for rs in pool.map(work, dirs, chunksize=1) for r in rs]
 for r in rows:
     print("%-28s %-4s %-12s %s" % r)
 print(f"{sum(1 for r in rows if r[2]=='DETECTED')}/{len(rows)} detected")
